@@ -2,6 +2,8 @@
 /// the caller's effective uid -- the kernel's permission checks (fs.protected_symlinks included) use the
 /// fsuid, which follows the effective uid unless setfsuid(2) is used (stated approximation, DESIGN C15)
 pub uninterp spec fn euid_spec() -> u32;
+/// the caller's filesystem uid: what fs/namei.c may_follow_link() compares the link owner with (current_fsuid())
+pub uninterp spec fn fsuid_spec() -> u32;
 /// the caller's real uid: NOT what the kernel's rule looks at
 pub uninterp spec fn ruid_spec() -> u32;
 pub mod rustix_process {
